@@ -737,13 +737,12 @@ def _blas_cases(ck, rng):
             for u, ta, dg in _blas_it.product(blas_UPLO, TR, blas_DIAG):
                 for _ in range(2):
                     yield dict(r="dtrsv", flags=(u, ta, dg), A=_blas_tri_pm1(rng, d), x=_blas_ri(rng, d))
-            # ---- dsyrk / dsyr2k: C (n x n), op(A) n x k.  Non-square A only in the direction where the
-            #      dimension k actually passed by the wrapper stays inside the buffer (no out-of-bounds read)
+            # ---- dsyrk / dsyr2k: C (n x n), op(A) n x k with k != n as well (non-square A).  Within a size tier the
+            #      cases with n < k come first: when the k dimension handed to Fortran is wrong (the defect fixed in
+            #      /repo 4aa6685: row count of op(A) passed as k) those stay inside the buffers and fail at value
+            #      level, whereas n > k makes DSYRK reject LDA (XERBLA -> process exit) or read past the buffer
             for u, t, _ in _blas_it.product(blas_UPLO, TR, range(2)):
-                for n, k in dims2:
-                    passed_k = n                      # the code passes the row count of op(A) as k
-                    if passed_k > k:
-                        continue
+                for n, k in sorted(dims2, key=lambda p: (p[0] > p[1], p)):
                     shp = (n, k) if t == 111 else (k, n)
                     yield dict(r="dsyrk", flags=(u, t), alpha=sc(), beta=sc(), A=_blas_ri(rng, shp), C=_blas_ri(rng, (n, n)))
                     yield dict(r="dsyr2k", flags=(u, t), alpha=sc(), beta=sc(), A=_blas_ri(rng, shp),
@@ -831,7 +830,7 @@ def _blas_run_case(c, fns, L):
     elif r in ("dsyrk", "dsyr2k"):
         u, t = fl
         square = c["A"].shape[0] == c["A"].shape[1]
-        # non-square A: known defect (the wrapper passes the row count of op(A) as k) -> one signature per routine
+        # non-square A exercises the k dimension handed to Fortran (defect fixed in /repo 4aa6685) -> one signature per routine
         feat = ("uplo=%s,trans=%s" % (blas_LETTER[u], blas_LETTER[t])) if square else "k-dimension/nonsquare-A"
         A, a = _blas_fm(c["A"]); C, cc = _blas_fm(c["C"])
         Ao = _blas_op(t, c["A"])
@@ -861,20 +860,18 @@ def _blas_run_case(c, fns, L):
     return out, out_py, exp, res_ok, feat, call, outop, replay
 
 
-def _blas_all_square(c):
-    dims = set()
-    for k in ("A", "B", "C", "x", "y"):
-        if k in c:
-            dims.update(_blas_np.shape(c[k]))
-    return len(dims) == 1
+def _blas_shape_class(c):
+    """per matrix operand: rows <, = or > columns (which leading-dimension checks a call can trip depends on it)"""
+    return tuple(int(_blas_np.sign(_blas_np.shape(c[k])[0] - _blas_np.shape(c[k])[1]))
+                 for k in ("A", "B", "C") if k in c)
 
 
 def _blas_exec(ck, cases):
     """Run every case in a forked child process.  The f2c XERBLA of lapack_lite ends the process with
     exit(0) (s_stop) when a Fortran routine rejects an argument, which would silently end the whole check:
     the child writes one pickled result per case, the parent notices a child that ended early, reports the
-    case in progress, drops the remaining non-square cases of that routine (square ones
-    pass every leading-dimension check, so they still give a value-level replay) and forks again.
+    case in progress, drops the remaining cases of that routine with the same shape class (rows <, =, > columns
+    per operand; other shape classes still run and can give a value-level replay) and forks again.
     Returns a list with, per case, the result tuple, "died" or None (skipped)."""
     import os
     import pickle
@@ -895,7 +892,7 @@ def _blas_exec(ck, cases):
                 fns = _blas_lib(ck)
                 with open(path, "ab") as f:
                     for i in range(start, len(cases)):
-                        if cases[i]["r"] in dead and not _blas_all_square(cases[i]):
+                        if (cases[i]["r"], _blas_shape_class(cases[i])) in dead:
                             continue
                         pickle.dump(("start", i), f)
                         f.flush()
@@ -930,7 +927,7 @@ def _blas_exec(ck, cases):
         if in_progress is None:            # child ended outside a case: do not loop for ever
             raise RuntimeError("blas child process ended unexpectedly (status %r) outside a case" % (status,))
         results[in_progress] = ("died", status)
-        dead.add(cases[in_progress]["r"])
+        dead.add((cases[in_progress]["r"], _blas_shape_class(cases[in_progress])))
         start = in_progress + 1
     return results
 
@@ -958,7 +955,7 @@ def blas(ck):
     for c, resu in zip(cases, results):
         r = c["r"]
         if resu is None:
-            continue                      # dropped after a process-ending case of this routine (already reported)
+            continue                      # dropped after a process-ending case of this routine and shape class (already reported)
         if isinstance(resu[0], str):      # "died" | "raised"
             ck.fail("blas/%s/%s" % (r, "process-exit-in-fortran-argument-check" if resu[0] == "died" else "raises"),
                     "fff_blas_%s with flags %s: %s" % (r, [blas_FLAGNAME[f] for f in c["flags"]],
@@ -1781,7 +1778,23 @@ def _orc_histogram(ck, rng):
 
 
 # ------------------------------------------------------------------ routines (installed, stale)
+class _OrcInstalledProxy:
+    """`nipy.labs.utils.routines` is the INSTALLED (stale) binary: its failures say nothing about /repo's
+    current C, so they get their own signature namespace and cannot mask or unmask a /repo defect."""
+
+    def __init__(self, ck):
+        self._ck = ck
+
+    def __getattr__(self, name):
+        return getattr(self._ck, name)
+
+    def fail(self, signature, what, replay, found_input=True):
+        return self._ck.fail("installed-routines:" + signature, "[installed nipy.labs.utils.routines binary] " + what,
+                             replay, found_input)
+
+
 def _orc_routines(ck, rng):
+    ck = _OrcInstalledProxy(ck)
     import scipy.special as sp
     from nipy.labs.utils import routines as rt
     ck.note("oracles: nipy.labs.utils.routines is the INSTALLED binary (routines.pyx cannot be re-cythonised here: "
